@@ -113,6 +113,7 @@ def gen_api(seed: int, n: int) -> List[Scn]:
             for _ in range(rng.randint(0, 3)):
                 steps.append(rng.choice([["fin_any", rng.randint(0, 3), rng.choice(["ret", "exc"])], ["gate_any", rng.randint(0, 3)],
                                          ["adv_rel", rng.choice([1, 3, 4])]]))
+        cfg["noparse"] = len(out) % 3 == 1           # worker started with parsing disabled (must stay so across restarts)
         faulty = rng.random() < 0.35
         if faulty:
             # the broker stream breaks (connection lost) while the worker is IDLE, up to A+1 times; run_receiver_task restarts
@@ -142,8 +143,12 @@ def gen_cli(seed: int, n: int) -> List[Scn]:
     for fam in (gen_flow(seed + 101, per), gen_stop_sweep(seed + 101, per), gen_saturation(seed + 101, per),
                 gen_pipe(seed + 101, per), gen_deps(seed + 101, per)):
         for scn in fam:
-            cfg = dict(scn["cfg"], via="cli")
-            out.append(dict(scn, cfg=cfg, family="cli_entry:" + str(scn.get("family"))))
+            cfg = dict(scn["cfg"], via="cli", noparse=len(out) % 3 == 2)
+            steps = list(scn["steps"])
+            if cfg.get("W", -1) < 0 and any(st[0] in ("stop", "stop_") for st in steps):
+                # no drain timeout was asked for: however long accepted tasks take, the worker keeps waiting for them
+                steps += [["adv_rel", 70], ["adv_rel", 140]]
+            out.append(dict(scn, cfg=cfg, steps=steps, family="cli_entry:" + str(scn.get("family"))))
     return out
 
 
@@ -152,7 +157,8 @@ def gen_inmem(seed: int, n: int) -> List[Scn]:
     out: List[Scn] = []
     for fam in (gen_pipe(seed + 211, n // 2), gen_deps(seed + 211, n - n // 2)):
         for k, scn in enumerate(fam):
-            cfg = dict(scn["cfg"], via="inmem", A=0, P=0, N=0, W=-1, ackable=False, ack_async=False, inplace=k % 2 == 1)
+            cfg = dict(scn["cfg"], via="inmem", A=0, P=0, N=0, W=-1, ackable=False, ack_async=False, inplace=k % 2 == 1,
+                       noparse=k % 3 == 2)
             cfg.pop("ack_future", None)
             cfg["msgs"] = [dict(m, ackfail=False) for m in cfg["msgs"]]
             steps = [st for st in scn["steps"] if st[0] not in ("stop", "stop_")]
@@ -169,7 +175,7 @@ def gen_saturation(seed: int, n: int) -> List[Scn]:
         P = rng.randint(0, 4)
         M = A + P + rng.randint(2, 5)
         stall = rng.random() < 0.35
-        cfg = {"A": A, "P": P, "ackable": rng.random() < 0.8,
+        cfg = {"A": A, "P": P, "ackable": rng.random() < 0.8, "ack": ("default", "when_received", "when_executed", "when_saved")[len(out) % 4],
                "msgs": _msgs(rng, M, ["valid"] * 10 + ["malformed", "unknown", "empty", "minus1"], ["ta0"],
                              instant_p=0.8 if stall else 0.05, savefail_p=0.1)}
         if stall:
@@ -405,6 +411,25 @@ def gen_sync_drain(seed: int, n: int) -> List[Scn]:
             steps.append(["fin_any", rng.randint(0, 2), rng.choice(["ret", "exc"])])
         steps += [["stop"], ["adv_rel", W + rng.choice([4, 7])], ["fin_all", rng.choice(["ret", "exc"])], ["adv_rel", 3]]
         out.append({"cfg": cfg, "steps": steps, "family": "sync_drain", "noconf": True})
+    return out
+
+
+def gen_sync_sat(seed: int, n: int) -> List[Scn]:
+    """A worker whose registered tasks are all synchronous, saturated with functions that keep running in pool threads:
+    the concurrency limit and the prefetch bound hold for them exactly as for coroutines."""
+    rng = random.Random(("syncsat", seed).__repr__())
+    out = []
+    for _ in range(n):
+        A = rng.choice([1, 2])
+        P = rng.choice([0, 1])
+        M = A + P + rng.randint(2, 4)
+        cfg = {"A": A, "P": P, "synconly": True, "ackable": rng.random() < 0.7,
+               "msgs": [{"task": "ts0", "slow": True} for _ in range(M)]}
+        steps: List[Any] = [["arrive", M], ["adv_rel", rng.choice([0, 4])], ["probe", 1]]
+        for _ in range(rng.randint(0, 3)):
+            steps += [["fin_any", rng.randint(0, 3), rng.choice(["ret", "exc"])], ["probe", 1]]
+        steps += [["fin_all", "ret"], ["adv_rel", 3]]
+        out.append({"cfg": cfg, "steps": steps, "family": "sync_sat", "noconf": True})
     return out
 
 
